@@ -354,3 +354,12 @@ def check(ctx: Ctx) -> None:
     from .C08 import check_atomic_write, check_single_write
     check_single_write(ctx, "C02.i")
     check_atomic_write(ctx, "C02.j")
+    # ids are what routes an item to its channel: two channels with one id mix their items
+    from .C18 import check_alloc_lock
+    check_alloc_lock(ctx, "C02.k")
+    # a read that takes more than the frame's bytes swallows the start of the next frame: later items are lost
+    with ctx.obligation("C02.l", "exact-read") as ob:
+        from .C08 import check_exact_read
+        for cname in ("Popen2IO", "SocketIO"):
+            check_exact_read(repo, ob, repo.cls(cname).methods["read"])
+
